@@ -126,7 +126,8 @@ def p3(prog):
     # the branch taken when no overload matches: `get<0>(find_exec(..)) == nullptr` in any spelling
     hit, region, _ = null_case_region(f, lambda c: c.get("fn") == "find_exec", True, "find_exec")
     diag = any(c.get("fn") == "show_error" for st in region for c in calls(st))
-    yields = any(y.get("k") == "return" and not _is_null_return(y) for st in region for y in walk(st)) or \
+    # no result and no end of stream either: the op goes on to pull the next input (a `return`, even of nullptr, would drop it)
+    yields = any(y.get("k") == "return" for st in region for y in walk(st)) or \
         any(c.get("fn") in ("set_next", "emplace") for st in region for c in calls(st))
     inst.append(("P3:overload_op::next", {"diagnostic": diag, "yields_or_feeds": yields}))
     if not diag or yields:
